@@ -1060,6 +1060,86 @@ def sk_euclidean(ex, st, args, kwargs):
     return L.mk(out, (X.shape[0], Y.shape[0]), "f")
 
 
+class SkScaler:
+    """sklearn.preprocessing.MinMaxScaler / StandardScaler (default options) by contract:
+       MinMaxScaler.fit_transform(X)[i, c] = (X[i, c] - min_c) / (max_c - min_c)      (0 for a constant column)
+       StandardScaler.fit_transform(X)[i, c] = (X[i, c] - mean_c) / std_c             (std_c = population std; 1 for a constant column)"""
+
+    def __init__(self, kind, opts):
+        self.kind = kind
+        self.opts = opts
+        self.fitted = None
+
+    def clone(self, memo):
+        return self
+
+    def getattr(self, ex, st, name):
+        if name in ("fit_transform", "fit", "transform", "inverse_transform"):
+            return _sx().BoundLib(self, name)
+        raise Unsupported("scaler attribute " + name)
+
+    def _stats(self, X):
+        n, d = X.shape
+        cols = []
+        for c in range(d):
+            col = [X.a[i, c] for i in range(n)]
+            if self.kind == "minmax":
+                mn, mx = col[0], col[0]
+                for v in col[1:]:
+                    mn = V.ite(V.lt(v, mn), v, mn)
+                    mx = V.ite(V.gt(v, mx), v, mx)
+                rng = V.sub(mx, mn)
+                cols.append((mn, V.ite(V.eq(rng, 0), Fraction(1), rng)))
+            else:
+                tot = col[0]
+                for v in col[1:]:
+                    tot = V.add(tot, v)
+                mean = V.div(tot, n)
+                var = Fraction(0)
+                for v in col:
+                    dv = V.sub(v, mean)
+                    var = V.add(var, V.mul(dv, dv))
+                var = V.div(var, n)
+                sd = L.sqrt_scalar(var)
+                cols.append((mean, V.ite(V.eq(var, 0), Fraction(1), sd)))
+        return cols
+
+    def method(self, ex, st, name, args):
+        L.used("sklearn.preprocessing.%s (default options): column-wise %s" % ("MinMaxScaler" if self.kind == "minmax" else "StandardScaler",
+               "(x - min) / (max - min)" if self.kind == "minmax" else "(x - mean) / population std"))
+        X = L.as_arr(args[0])
+        if X.ndim != 2 or X.shape[0] == 0:
+            raise Unsupported("scaler input shape")
+        if name in ("fit", "fit_transform"):
+            self.fitted = self._stats(X)
+            if name == "fit":
+                return self
+        if self.fitted is None or len(self.fitted) != X.shape[1]:
+            raise Unsupported("scaler used before fit / with another width")
+        out = _np.empty(X.shape, dtype=object)
+        for i in range(X.shape[0]):
+            for c in range(X.shape[1]):
+                off, sc = self.fitted[c]
+                out[i, c] = V.add(V.mul(X.a[i, c], sc), off) if name == "inverse_transform" else V.div(V.sub(X.a[i, c], off), sc)
+        return SArr(out, "f")
+
+
+def sk_minmax(ex, st, args, kwargs):
+    if args or any(k not in ("feature_range", "copy", "clip") for k in kwargs) or kwargs.get("feature_range", (0, 1)) != (0, 1) or kwargs.get("clip", False):
+        raise Unsupported("MinMaxScaler options")
+    return SkScaler("minmax", dict(kwargs))
+
+
+def sk_standard(ex, st, args, kwargs):
+    if args or kwargs.get("with_mean", True) is not True or kwargs.get("with_std", True) is not True:
+        raise Unsupported("StandardScaler options")
+    return SkScaler("standard", dict(kwargs))
+
+
+NP["sklearn.preprocessing.MinMaxScaler"] = sk_minmax
+NP["sklearn.preprocessing.StandardScaler"] = sk_standard
+
+
 def sp_minimize(ex, st, args, kwargs):
     """scipy.optimize.minimize(fun, x0, method, constraints): the objective and every constraint function are
     evaluated on a fresh symbolic point (recorded in ctx.nlp so a contract can compare the PROGRAM with the
@@ -1708,6 +1788,68 @@ class ConcSet:
     def length(self, ex, st):
         return len(self.vals)
 
+    def truth(self):
+        return len(self.vals) > 0
+
+    is_set = True
+
+    def getattr(self, ex, st, name):
+        if name in ("add", "remove", "discard", "union", "difference", "intersection", "copy", "update", "difference_update",
+                    "intersection_update", "issubset", "issuperset", "isdisjoint", "clear"):
+            return _sx().BoundLib(self, name)
+        raise Unsupported("set attribute " + name)
+
+    def _ints(self, ex, other):
+        if isinstance(other, ConcSet):
+            return list(other.vals)
+        out = []
+        for x in ex.iter_concrete(other):
+            c = V.conc(x) if not isinstance(x, int) else x
+            if not isinstance(c, int) or isinstance(c, bool):
+                raise Unsupported("set operation with a symbolic element outside the set-level mode")
+            out.append(c)
+        return out
+
+    def method(self, ex, st, name, args):
+        """Concrete sets are MUTABLE objects (aliasing is Python's own: the same ConcSet object is shared)."""
+        if name in ("add", "remove", "discard"):
+            x = args[0]
+            c = V.conc(x) if not isinstance(x, int) else x
+            if not isinstance(c, int) or isinstance(c, bool):
+                raise Unsupported("set.%s of a symbolic element outside the set-level mode" % name)
+            if name == "add":
+                self.vals = sorted(set(self.vals) | {c})
+            elif name == "remove":
+                if c not in self.vals:
+                    ex.ctx.obligation("no-raise:KeyError(set.remove)", False)
+                    raise _sx().PathDead("KeyError")
+                self.vals = [v for v in self.vals if v != c]
+            else:
+                self.vals = [v for v in self.vals if v != c]
+            st.log.append(("list", id(self)))
+            return None
+        if name in ("union", "difference", "intersection"):
+            r = set(self.vals)
+            for o in args:
+                ov = set(self._ints(ex, o))
+                r = (r | ov) if name == "union" else ((r - ov) if name == "difference" else (r & ov))
+            return ConcSet(r)
+        if name in ("update", "difference_update", "intersection_update", "clear"):
+            r = set() if name == "clear" else set(self.vals)
+            for o in args:
+                ov = set(self._ints(ex, o))
+                r = (r | ov) if name == "update" else ((r - ov) if name == "difference_update" else (r & ov))
+            self.vals = sorted(r)
+            st.log.append(("list", id(self)))
+            return None
+        if name == "copy":
+            return ConcSet(self.vals)
+        if name in ("issubset", "issuperset", "isdisjoint"):
+            ov = set(self._ints(ex, args[0]))
+            me = set(self.vals)
+            return (me <= ov) if name == "issubset" else ((me >= ov) if name == "issuperset" else not (me & ov))
+        raise Unsupported("set method " + name)
+
     def contains(self, ex, st, item):
         c = V.conc(item) if not isinstance(item, int) else item
         if isinstance(c, int):
@@ -1721,7 +1863,7 @@ class ConcSet:
         return list(self.vals)
 
     def clone(self, memo):
-        return self
+        return ConcSet(self.vals)   # (sharing between aliases is preserved by clone_val's memo)
 
 
 class EnumVal:
